@@ -13,6 +13,9 @@ pub(crate) fn no_text(_buf: &[u8]) -> Result<Value<'_>, Error> {
 }
 
 // ------------------------------------------------------------------ expected text
+// PERFORMANCE NOTE: the renderer slices the document with bounds that depend on the (symbolic) string bytes, so CBMC
+// unwinds the UTF-8 chunk loops of String::from_utf8_lossy up to the harness bound for every call.  The text twins
+// therefore run with `unwind(6)`, and every harness-side loop is written as nested loops of at most 4-5 iterations.
 const TMAX: usize = 80;
 
 struct Txt {
@@ -33,16 +36,27 @@ impl Txt {
         self.b[self.n] = c;
         self.n += 1;
     }
+    /// a literal of at most 16 bytes
     fn lit(&mut self, s: &[u8]) {
-        let mut i = 0;
-        while i < s.len() {
-            self.ch(s[i]);
-            i += 1;
+        assert!(s.len() <= 16);
+        let mut c = 0;
+        while c < 4 {
+            let mut j = 0;
+            while j < 4 {
+                let i = c * 4 + j;
+                if i < s.len() {
+                    self.ch(s[i]);
+                }
+                j += 1;
+            }
+            c += 1;
         }
     }
     /// RFC 8259 section 7: quotation mark, reverse solidus and the control characters U+0000..U+001F must be escaped;
-    /// two-character escapes for \" \\ \b \f \n \r \t, \u00xx (lowercase hex) for the other control characters
+    /// two-character escapes for \" \\ \b \f \n \r \t, \u00xx (lowercase hex) for the other control characters;
+    /// strings of at most 4 bytes
     fn string(&mut self, s: &[u8]) {
+        assert!(s.len() <= 4);
         self.ch(b'"');
         let mut i = 0;
         while i < s.len() {
@@ -79,45 +93,129 @@ impl Txt {
             _ => assert!(false),
         }
     }
-    fn indent(&mut self, n: usize) {
-        let mut i = 0;
-        while i < n {
-            self.ch(b' ');
-            i += 1;
-        }
-    }
     fn same(&self, s: &str) -> bool {
         let g = s.as_bytes();
         if g.len() != self.n {
             return false;
         }
-        let mut i = 0;
-        while i < self.n {
-            if g[i] != self.b[i] {
-                return false;
+        let mut ok = true;
+        let mut a = 0;
+        while a < 5 {
+            let mut c = 0;
+            while c < 4 {
+                let mut j = 0;
+                while j < 4 {
+                    let i = a * 16 + c * 4 + j;
+                    if i < self.n && g[i] != self.b[i] {
+                        ok = false;
+                    }
+                    j += 1;
+                }
+                c += 1;
             }
-            i += 1;
+            a += 1;
         }
-        true
+        ok
     }
 }
 
-// ------------------------------------------------------------------ C03 compact text
-/// scalar documents: a 2-byte string with arbitrary ASCII bytes (controls, quote, backslash included), compact and pretty
-#[kani::proof]
-#[kani::unwind(20)]
-#[kani::stub(crate::parser::parse_value, no_text)]
-fn km_text_scalar_str2() {
-    let s = sc_str2().it;
-    let doc = layout_scalar(&s);
-    let mut t = Txt::new();
-    t.string(s.payload());
-    assert!(t.same(&to_string(doc.as_slice())));
+// README layout with short loops (the same byte layout as verif_kani_spec::layout_*; see km_lay_agrees)
+fn put(b: &mut Buf, s: &[u8]) {
+    assert!(s.len() <= 16);
+    let mut c = 0;
+    while c < 4 {
+        let mut j = 0;
+        while j < 4 {
+            let i = c * 4 + j;
+            if i < s.len() {
+                b.push(s[i]);
+            }
+            j += 1;
+        }
+        c += 1;
+    }
 }
 
-/// the same for a 1-byte string, compact and pretty
+fn lay_array(items: &[It]) -> Buf {
+    assert!(items.len() <= 4);
+    let mut b = Buf::new();
+    b.push_u32(ARRAY | items.len() as u32);
+    let mut i = 0;
+    while i < items.len() {
+        b.push_u32(items[i].word);
+        i += 1;
+    }
+    i = 0;
+    while i < items.len() {
+        put(&mut b, items[i].payload());
+        i += 1;
+    }
+    b
+}
+
+fn lay_object(keys: &[It], vals: &[It]) -> Buf {
+    assert!(keys.len() <= 2 && vals.len() == keys.len());
+    let mut b = Buf::new();
+    b.push_u32(OBJECT | keys.len() as u32);
+    let mut i = 0;
+    while i < keys.len() {
+        b.push_u32(keys[i].word);
+        i += 1;
+    }
+    i = 0;
+    while i < vals.len() {
+        b.push_u32(vals[i].word);
+        i += 1;
+    }
+    i = 0;
+    while i < keys.len() {
+        put(&mut b, keys[i].payload());
+        i += 1;
+    }
+    i = 0;
+    while i < vals.len() {
+        put(&mut b, vals[i].payload());
+        i += 1;
+    }
+    b
+}
+
+/// a document of at most 16 bytes as a CONTAINER element
+fn cont(d: &Buf) -> It {
+    assert!(d.n <= 16);
+    let mut pay = [0u8; PAYMAX];
+    let mut c = 0;
+    while c < 4 {
+        let mut j = 0;
+        while j < 4 {
+            let i = c * 4 + j;
+            if i < d.n {
+                pay[i] = d.b[i];
+            }
+            j += 1;
+        }
+        c += 1;
+    }
+    It { word: T_CONTAINER | d.n as u32, pay, plen: d.n }
+}
+
+/// the short-loop layout functions produce the same bytes as the shared README layout spec
 #[kani::proof]
-#[kani::unwind(20)]
+#[kani::unwind(50)]
+fn km_lay_agrees() {
+    let k = [key1(), key2()];
+    let v = [sc_str1().it, sc_w0().it];
+    assert!(lay_object(&k, &v).eq_slice(layout_object(&k, &v).as_slice()));
+    let inner = lay_object(&[k[0]], &[v[1]]);
+    let a = [sc_str2().it, cont(&inner), sc_w0().it, cont(&lay_array(&[]))];
+    assert!(cont(&inner).same(&it_object(&[k[0]], &[v[1]])));
+    assert!(lay_array(&a).eq_slice(layout_array(&a).as_slice()));
+}
+
+// ------------------------------------------------------------------ C03 compact text
+/// scalar documents: a 1-byte string with an arbitrary ASCII byte (controls, quote, backslash included), compact and pretty
+#[kani::proof]
+#[kani::unwind(6)]
 #[kani::stub(crate::parser::parse_value, no_text)]
 fn km_text_scalar_str1() {
     let s = sc_str1().it;
@@ -128,13 +226,25 @@ fn km_text_scalar_str1() {
     assert!(t.same(&to_pretty_string(doc.as_slice())));
 }
 
+/// scalar documents: a 2-byte string (escape followed by literal, literal followed by escape, two escapes, ...)
+#[kani::proof]
+#[kani::unwind(6)]
+#[kani::stub(crate::parser::parse_value, no_text)]
+fn km_text_scalar_str2() {
+    let s = sc_str2().it;
+    let doc = layout_scalar(&s);
+    let mut t = Txt::new();
+    t.string(s.payload());
+    assert!(t.same(&to_string(doc.as_slice())));
+}
+
 /// arrays [str2, null|bool, str1]
 #[kani::proof]
-#[kani::unwind(40)]
+#[kani::unwind(6)]
 #[kani::stub(crate::parser::parse_value, no_text)]
 fn km_text_array3() {
     let a = [sc_str2().it, sc_w0().it, sc_str1().it];
-    let doc = layout_array(&a);
+    let doc = lay_array(&a);
     let mut t = Txt::new();
     t.ch(b'[');
     t.scalar(&a[0]);
@@ -148,12 +258,12 @@ fn km_text_array3() {
 
 /// objects {k1: str1, k2: null|bool} (keys need escaping too)
 #[kani::proof]
-#[kani::unwind(40)]
+#[kani::unwind(6)]
 #[kani::stub(crate::parser::parse_value, no_text)]
 fn km_text_object2() {
     let k = [key1(), key2()];
     let v = [sc_str1().it, sc_w0().it];
-    let doc = layout_object(&k, &v);
+    let doc = lay_object(&k, &v);
     let mut t = Txt::new();
     t.ch(b'{');
     t.string(k[0].payload());
@@ -167,46 +277,52 @@ fn km_text_object2() {
     assert!(t.same(&to_string(doc.as_slice())));
 }
 
-/// one nesting level: [[], {}, [str1], {k: null|bool}, str1] -- the element after nested containers checks the offsets
+/// nested empty containers followed by a further element: [[], {}, str1]
 #[kani::proof]
-#[kani::unwind(50)]
+#[kani::unwind(6)]
+#[kani::stub(crate::parser::parse_value, no_text)]
+fn km_text_nested_empty() {
+    let last = sc_str1().it;
+    let doc = lay_array(&[cont(&lay_array(&[])), cont(&lay_object(&[], &[])), last]);
+    let mut t = Txt::new();
+    t.lit(b"[[],{},");
+    t.scalar(&last);
+    t.ch(b']');
+    assert!(t.same(&to_string(doc.as_slice())));
+}
+
+/// one nesting level: [[str1], {k: null|bool}, str1] -- the element after the nested containers checks the offsets
+#[kani::proof]
+#[kani::unwind(6)]
 #[kani::stub(crate::parser::parse_value, no_text)]
 fn km_text_nested() {
     let e = sc_str1().it;
     let k = key1();
     let v = sc_w0().it;
     let last = sc_str1().it;
-    let a = [it_array(&[]), it_object(&[], &[]), it_array(&[e]), it_object(&[k], &[v]), last];
-    // 4 + 20 + 4 + 4 + 9 + 13 + 1 = 55 bytes: too long for Buf; use the first two and the last three separately
-    let d1 = layout_array(&[a[0], a[1], last]);
+    let doc = lay_array(&[cont(&lay_array(&[e])), cont(&lay_object(&[k], &[v])), last]);
     let mut t = Txt::new();
-    t.lit(b"[[],{},");
+    t.lit(b"[[");
+    t.scalar(&e);
+    t.lit(b"],{");
+    t.string(k.payload());
+    t.ch(b':');
+    t.scalar(&v);
+    t.lit(b"},");
     t.scalar(&last);
     t.ch(b']');
-    assert!(t.same(&to_string(d1.as_slice())));
-    let d2 = layout_array(&[a[2], a[3], last]);
-    let mut u = Txt::new();
-    u.lit(b"[[");
-    u.scalar(&e);
-    u.lit(b"],{");
-    u.string(k.payload());
-    u.ch(b':');
-    u.scalar(&v);
-    u.lit(b"},");
-    u.scalar(&last);
-    u.ch(b']');
-    assert!(u.same(&to_string(d2.as_slice())));
+    assert!(t.same(&to_string(doc.as_slice())));
 }
 
 // ------------------------------------------------------------------ C03 pretty text
-/// pretty arrays [str1, null|bool, [] , str1]: two-space indentation, one element per line; an EMPTY nested container is
+/// pretty arrays [str1, null|bool, [], str1]: two-space indentation, one element per line; an EMPTY nested container is
 /// printed by the current code as an opening bracket, an empty line, the parent's indentation and the closing bracket
 #[kani::proof]
-#[kani::unwind(50)]
+#[kani::unwind(6)]
 #[kani::stub(crate::parser::parse_value, no_text)]
 fn km_pretty_array() {
-    let a = [sc_str1().it, sc_w0().it, it_array(&[]), sc_str1().it];
-    let doc = layout_array(&a);
+    let a = [sc_str1().it, sc_w0().it, cont(&lay_array(&[])), sc_str1().it];
+    let doc = lay_array(&a);
     let mut t = Txt::new();
     t.lit(b"[\n  ");
     t.scalar(&a[0]);
@@ -220,14 +336,14 @@ fn km_pretty_array() {
 
 /// pretty objects {k1: str1, k2: {k1': null|bool}}: `"key": value`, nested members at four spaces
 #[kani::proof]
-#[kani::unwind(60)]
+#[kani::unwind(6)]
 #[kani::stub(crate::parser::parse_value, no_text)]
 fn km_pretty_object() {
     let k = [key1(), key2()];
     let ik = key1();
     let iv = sc_w0().it;
-    let v = [sc_str1().it, it_object(&[ik], &[iv])];
-    let doc = layout_object(&k, &v);
+    let v = [sc_str1().it, cont(&lay_object(&[ik], &[iv]))];
+    let doc = lay_object(&k, &v);
     let mut t = Txt::new();
     t.lit(b"{\n  ");
     t.string(k[0].payload());
@@ -245,11 +361,11 @@ fn km_pretty_object() {
 
 /// empty top-level containers, compact and pretty
 #[kani::proof]
-#[kani::unwind(12)]
+#[kani::unwind(6)]
 #[kani::stub(crate::parser::parse_value, no_text)]
 fn km_text_empty() {
-    let ea = layout_array(&[]);
-    let eo = layout_object(&[], &[]);
+    let ea = lay_array(&[]);
+    let eo = lay_object(&[], &[]);
     assert!(to_string(ea.as_slice()).as_bytes() == b"[]");
     assert!(to_string(eo.as_slice()).as_bytes() == b"{}");
     assert!(to_pretty_string(ea.as_slice()).as_bytes() == b"[\n\n]");
@@ -346,20 +462,28 @@ fn km_cmpkey_array_prefix2() {
     check_keys(&layout_array(&b), &layout_array(&a));
 }
 
-/// arrays of different length: [x] against [x', y], [s] against [s', y], [] against [x]
+/// arrays of different length: [x] against [x', y] (both directions), [] against [x]
 #[kani::proof]
 #[kani::unwind(30)]
 #[kani::stub(crate::parser::parse_value, no_text)]
 fn km_cmpkey_array_len() {
     let a = [sc_w0().it];
     let b = [sc_w0().it, sc_w0().it];
+    check_keys(&layout_array(&a), &layout_array(&b));
+    check_keys(&layout_array(&b), &layout_array(&a));
+    check_keys(&layout_array(&[]), &layout_array(&a));
+}
+
+/// [s] against [s', y] with 1-byte strings s, s'
+#[kani::proof]
+#[kani::unwind(30)]
+#[kani::stub(crate::parser::parse_value, no_text)]
+fn km_cmpkey_array_len2() {
     let c = [sc_str1().it];
     let d = [sc_str1().it, sc_w0().it];
     kani::assume(hi(&c[0]) && hi(&d[0]));
-    check_keys(&layout_array(&a), &layout_array(&b));
-    check_keys(&layout_array(&b), &layout_array(&a));
     check_keys(&layout_array(&c), &layout_array(&d));
-    check_keys(&layout_array(&[]), &layout_array(&a));
+    check_keys(&layout_array(&d), &layout_array(&c));
 }
 
 /// one nesting level: [[s], x] against [[s', y]] and against [{k: s'}]; a null element against a nested container
@@ -453,7 +577,7 @@ fn parse_total(maxlen: usize) {
 
 /// every input of length <= 2 over the 18-symbol alphabet
 #[kani::proof]
-#[kani::unwind(8)]
+#[kani::unwind(4)]
 #[kani::stub(fast_float2::parse::parse_float, ff_any)]
 fn km_parse_total2() {
     parse_total(2);
@@ -461,7 +585,7 @@ fn km_parse_total2() {
 
 /// every input of length <= 3
 #[kani::proof]
-#[kani::unwind(8)]
+#[kani::unwind(5)]
 #[kani::stub(fast_float2::parse::parse_float, ff_any)]
 fn km_parse_total3() {
     parse_total(3);
@@ -469,7 +593,7 @@ fn km_parse_total3() {
 
 /// every input of length <= 4
 #[kani::proof]
-#[kani::unwind(8)]
+#[kani::unwind(6)]
 #[kani::stub(fast_float2::parse::parse_float, ff_any)]
 fn km_parse_total4() {
     parse_total(4);
@@ -477,7 +601,7 @@ fn km_parse_total4() {
 
 /// every input of length <= 5
 #[kani::proof]
-#[kani::unwind(8)]
+#[kani::unwind(7)]
 #[kani::stub(fast_float2::parse::parse_float, ff_any)]
 fn km_parse_total5() {
     parse_total(5);
